@@ -500,7 +500,7 @@ package connect
 //@ spec payloadOf(s seq) seq = s[5:5+declared(s)]
 //@ macro completeFrame(r *envelopeReader, s seq) bool = |s| >= 5 && withinLimit(declared(s), r.readMaxBytes) && |s| >= 5 + declared(s)
 //@ macro isCompressed(s seq) bool = bit(s[0], 1) && declared(s) > 0
-//@ macro plainOK(r *envelopeReader, s seq) bool = !isCompressed(s) || (r.compressionPool != nil && decompOK(r.compressionPool.decompressors, payloadOf(s)) && (r.readMaxBytes <= 0 || |decompBy(r.compressionPool.decompressors, payloadOf(s))| <= r.readMaxBytes))
+//@ macro plainOK(r *envelopeReader, s seq) bool = (bit(s[0], 1) ==> r.compressionPool != nil) && (!isCompressed(s) || (r.compressionPool != nil && decompOK(r.compressionPool.decompressors, payloadOf(s)) && (r.readMaxBytes <= 0 || |decompBy(r.compressionPool.decompressors, payloadOf(s))| <= r.readMaxBytes)))
 //@ macro plainWillDecode(r *envelopeReader, s seq) bool = plainOK(r, s) && (isCompressed(s) ==> closesCleanly(r.compressionPool.decompressors))
 //@ macro plain(r *envelopeReader, s seq) seq = if isCompressed(s) then decompBy(r.compressionPool.decompressors, payloadOf(s)) else payloadOf(s)
 
@@ -520,7 +520,7 @@ package connect
 //@   ensures let S := old(rest(r.reader)) in res != nil && Is(res, io.EOF) && termerr(r.reader) != io.EOF && !coded(termerr(r.reader)) ==> |S| == 0 || (completeFrame(r, S) && S[0] != 0 && S[0] != 1)   // label: a-transport-failure-reads-as-an-end-at-most-at-a-frame-boundary-whatever-its-error-wraps   // tags: C04, C07
 //@   ensures let S := old(rest(r.reader)) in |S| >= 5 && r.readMaxBytes > 0 && declared(S) > r.readMaxBytes ==> res != nil   // label: oversize-on-the-wire-rejected   // tags: C09
 //@   assert@call((*compressionPool).Decompress#1): arg3 == r.readMaxBytes   // label: every-frame-is-decompressed-under-the-read-limit-flagged-ones-included   // tags: C09
-//@   ensures let S := old(rest(r.reader)) in completeFrame(r, S) && isCompressed(S) && r.compressionPool == nil ==> res != nil && !Is(res, io.EOF)   // label: compressed-without-negotiated-encoding-rejected   // tags: C07, C08
+//@   ensures let S := old(rest(r.reader)) in completeFrame(r, S) && bit(S[0], 1) && r.compressionPool == nil ==> res != nil && !Is(res, io.EOF)   // label: flagged-compressed-without-negotiated-encoding-is-rejected-whatever-the-payload's-size   // tags: C07, C08
 //@   ensures res != nil ==> asErr(res) == res                                                                 // label: errors-are-coded
 
 // ---------------------------------------------------------------------------
